@@ -8,10 +8,11 @@
     transform manager = a partial map frame -> pose that [SetTm] replaces; the coordinate
     order [le] with min/max (hypotheses of C05: a transitive order, no NaN).  Collider
     objects live in a heap because Python shares them by reference. *)
-From Coq Require Import List ZArith Lia Bool Arith.
+From Coq Require Import List ZArith Lia Bool Arith Reals.
 From D3 Require Import Base.Vec Gen.CollidersTables Model.AabbTree Model.Colliders Model.Bvh
                        Proofs.CollidersProofs Proofs.BvhDict Proofs.BvhProofs Proofs.BvhDetect
-                       Proofs.BvhWhitelists Proofs.BvhColliders.
+                       Proofs.BvhWhitelists Proofs.BvhColliders Proofs.BvhNoAssert Proofs.BvhReal
+                       Base.Ops Model.AabbTreeRun Model.BvhCost.
 Import ListNotations.
 
 Section Generic.
@@ -227,6 +228,65 @@ Theorem fill_tree_is_a_history :
             (map (fun fo => Add frame pose (fst fo) (snd fo)) objs ++ [SetWl frame pose w; UpdatePoses frame pose]).
 Proof. exact fill_as_ops. Qed.
 
+(** No AssertionError.  In exact real arithmetic, with the volume heuristic and the cost
+    assertion of insert_leaf as the source states them ([o_go_left], [o_cost_ok]; at binary64
+    they are the functions the correspondence check executes) and collider boxes that are
+    valid (min <= max, C04): update_collider_poses can only raise KeyError (a registered frame
+    unknown to the transform manager) or fail on an unknown object, it returns normally when
+    neither happens, and add_collider cannot raise at all on a known object. *)
+Theorem update_poses_never_asserts_R :
+  forall frame coll pose (upd : coll -> pose -> coll) (aabb_of : coll -> box R),
+    (forall c, okboxR (aabb_of c)) ->
+    forall st e,
+    update_collider_poses R (@Ops.fmin R ROps) (@Ops.fmax R ROps) 0%R (@o_go_left R ROps) (@o_cost_ok R ROps)
+                          frame coll pose upd aabb_of st = XErr e ->
+    e = XKey \/ e = XIndex.
+Proof.
+  intros frame coll pose upd aabb_of H.
+  exact (update_poses_raises_only R Rleb _ _ 0%R _ _ frame coll pose upd aabb_of okboxR cost_total_R H).
+Qed.
+
+Theorem update_poses_succeeds_R :
+  forall frame coll pose (upd : coll -> pose -> coll) (aabb_of : coll -> box R),
+    (forall c, okboxR (aabb_of c)) ->
+    forall st,
+    (forall f o, In (f, o) (colliders _ _ _ _ st) ->
+       (exists p, tmap _ _ _ _ st f = Some p) /\ o < length (heap _ _ _ _ st)) ->
+    exists st',
+      update_collider_poses R (@Ops.fmin R ROps) (@Ops.fmax R ROps) 0%R (@o_go_left R ROps) (@o_cost_ok R ROps)
+                            frame coll pose upd aabb_of st = XOk st'.
+Proof.
+  intros frame coll pose upd aabb_of H.
+  exact (update_poses_succeeds R Rleb _ _ 0%R _ _ frame coll pose upd aabb_of okboxR cost_total_R H).
+Qed.
+
+Theorem add_collider_never_asserts_R :
+  forall frame feqb coll pose (aabb_of : coll -> box R),
+    (forall c, okboxR (aabb_of c)) ->
+    forall st f o e,
+    Inv R (@Ops.fmin R ROps) (@Ops.fmax R ROps) frame coll pose aabb_of st ->
+    add_collider R (@Ops.fmin R ROps) (@Ops.fmax R ROps) 0%R (@o_go_left R ROps) (@o_cost_ok R ROps)
+                 frame feqb coll pose aabb_of st f o = XErr e ->
+    e = XIndex.
+Proof.
+  intros frame feqb coll pose aabb_of H.
+  exact (add_collider_raises_only R _ _ 0%R _ _ frame feqb coll pose aabb_of okboxR cost_total_R H).
+Qed.
+
+(** the hypotheses on the coordinate order hold for the reals, and the heuristics run by the
+    correspondence check are the binary64 instance of the ones above *)
+Theorem real_order_ok :
+  (forall a b c, Rleb a b = true -> Rleb b c = true -> Rleb a c = true) /\
+  (forall a b, Rleb (@Ops.fmin R ROps a b) a = true) /\ (forall a b, Rleb (@Ops.fmin R ROps a b) b = true) /\
+  (forall a b, Rleb a (@Ops.fmax R ROps a b) = true) /\ (forall a b, Rleb b (@Ops.fmax R ROps a b) = true).
+Proof. exact R_order_ok. Qed.
+
+Theorem heuristics_are_the_executed_ones :
+  AabbTreeRun.fmin = @Ops.fmin PrimFloat.float FOps /\ AabbTreeRun.fmax = @Ops.fmax PrimFloat.float FOps /\
+  f_go_left = @o_go_left PrimFloat.float FOps /\ f_cost_ok = @o_cost_ok PrimFloat.float FOps /\
+  fle = @o_le PrimFloat.float FOps.
+Proof. exact heuristics_at_binary64. Qed.
+
 (** The generated whitelists (LinkInfo): a collision frame whitelists the collision frames
     of its own link, of the link recorded last as its parent and of the link recorded last
     as its child — only ONE child link, hence the asymmetry for branching robots. *)
@@ -330,6 +390,11 @@ Print Assumptions detect_any_spec.
 Print Assumptions poses_current_colliders.
 Print Assumptions bvh_box_query_exact_after_history.
 Print Assumptions fill_tree_is_a_history.
+Print Assumptions update_poses_never_asserts_R.
+Print Assumptions update_poses_succeeds_R.
+Print Assumptions add_collider_never_asserts_R.
+Print Assumptions real_order_ok.
+Print Assumptions heuristics_are_the_executed_ones.
 Print Assumptions generated_whitelist_spec.
 Print Assumptions generated_whitelists_lookup.
 Print Assumptions generated_whitelists_can_be_asymmetric.
